@@ -22,6 +22,8 @@ func init() { commands["C04"] = runC04 }
 // fixed shapes around the ValidPath boundary
 var nameShapes = []string{
 	"", "/", "/a", "a/", "a//b", "./a", "a/.", "..", "../a", "a/../b", "a/./b", "//", "/.", "a/..", "d/", "d//f", "d/./f", "/d/f",
+	// an invalid tail after a valid prefix that does not exist yet, at two depths
+	"x/a/", "x/a//b", "x/a/../b", "x/a/.", "x/a/\xff", "d/x/", "a/b/",
 	"\xff", "a/\xc3", "\xc0\xaf", "\xed\xa0\x80", "\xf4\x90\x80\x80", "d/\x80", "\xe2\x82", "d/f\xfe",
 	// valid ones, including bytes that are separators elsewhere
 	".", "x", "d/x", "a\\b", "c:", "c:\\x", "d/a\\b", "é", "d/日本", "a b", "...", "d/..x", "x..", "-", "~", "a\x00b",
@@ -48,6 +50,19 @@ var allNSOps = []string{"mkdir", "mkdirall", "openclose", "open-ro", "writefile"
 // the generic Sub view provides no Rename of its own (hackpadfs.Rename on it is ErrNotImplemented)
 var subOps = []string{"mkdir", "mkdirall", "openclose", "open-ro", "writefile", "remove", "removeall", "chmod", "chtimes", "stat", "readdir", "readfile", "sub"}
 var readOps = []string{"open-ro", "stat", "readdir", "readfile"}
+
+// primOnly exposes Open, OpenFile, Mkdir, Remove and Stat of the base and nothing else
+type primOnly struct{ base hackpadfs.FS }
+
+func (p primOnly) Open(name string) (hackpadfs.File, error) { return p.base.Open(name) }
+func (p primOnly) OpenFile(name string, flag int, perm hackpadfs.FileMode) (hackpadfs.File, error) {
+	return hackpadfs.OpenFile(p.base, name, flag, perm)
+}
+func (p primOnly) Mkdir(name string, perm hackpadfs.FileMode) error { return hackpadfs.Mkdir(p.base, name, perm) }
+func (p primOnly) Remove(name string) error                         { return hackpadfs.Remove(p.base, name) }
+func (p primOnly) Stat(name string) (hackpadfs.FileInfo, error)     { return hackpadfs.Stat(p.base, name) }
+
+var primOps = []string{"mkdir", "mkdirall", "openclose", "open-ro", "writefile", "remove", "removeall", "stat", "readdir", "readfile", "sub"}
 
 func prepTree(fs hackpadfs.FS) {
 	must := func(err error) {
@@ -106,6 +121,12 @@ func c04Layers() []layer {
 			fs, done := newOSWorld()
 			prepTree(fs)
 			return fs, []hackpadfs.FS{fs}, done
+		}},
+		{"fallbacks(mem)", primOps, func() (hackpadfs.FS, []hackpadfs.FS, func()) {
+			// only the primitives are exposed: MkdirAll, RemoveAll, WriteFullFile, ReadDir, ReadFile are the package helpers' fallbacks
+			fs := newMem()
+			prepTree(fs)
+			return primOnly{fs}, []hackpadfs.FS{fs}, func() {}
 		}},
 		{"sub(os)", allNSOps, func() (hackpadfs.FS, []hackpadfs.FS, func()) {
 			base, done := newOSWorld()
@@ -218,7 +239,7 @@ func c04Op(kind, name string) Op {
 }
 
 func runC04(r *Rng, n int, replay string) {
-	cands := append(candidatePaths([]string{"d", "f", "x", "zz", "base"}, 2), "a\\b", "c:", "é", "a b")
+	cands := append(candidatePaths([]string{"d", "f", "x", "zz", "base", "a"}, 2), "a\\b", "c:", "é", "a b", "x/a/b", "a/b", "a/b/c")
 	names := append([]string(nil), nameShapes...)
 	for len(names) < len(nameShapes)+n {
 		names = append(names, fuzzName(r))
